@@ -252,6 +252,39 @@ def apply (s : LSet) : Op → LSet × Bool
   | .insertBefore a vs => insertBefore s a vs
   | .remove v => remove s v
 
+/-- the values an operation inserts, moves or removes (anchors are not touched) -/
+def touched : Op → List Nat
+  | .append v => [v]
+  | .extend vs => vs
+  | .insertAfter _ vs => vs
+  | .insertBefore _ vs => vs
+  | .remove v => [v]
+
+/-- one event of a history as seen by one generator: an edit of the container, or a `next()` on
+    this generator (`next()` on other generators does not change the container) -/
+inductive Ev
+  | op (o : Op)
+  | next
+deriving Repr
+
+/-- run a history with one tracked generator: final state, final cursor, values it yielded -/
+def runHist (d : Dir) : LSet → Cursor → List Ev → LSet × Cursor × List Nat
+  | s, c, [] => (s, c, [])
+  | s, c, .op o :: es => runHist d (apply s o).1 c es
+  | s, c, .next :: es =>
+    match iterNext s d c with
+    | (c', .yield v) => let r := runHist d s c' es; (r.1, r.2.1, v :: r.2.2)
+    | (c', _) => runHist d s c' es
+
+/-- every value touched by some edit of the history -/
+def touchedAll : List Ev → List Nat
+  | [] => []
+  | .op o :: es => touched o ++ touchedAll es
+  | .next :: es => touchedAll es
+
+/-- `l` restricted to the elements not in `T` -/
+def untouched (T : List Nat) (l : List Nat) : List Nat := l.filter (fun y => decide (y ∉ T))
+
 /-! ### Ghost functions used by the abstraction (executable so that the refinement statement can
 be tested through the driver before and after it is proved) -/
 
